@@ -303,6 +303,7 @@ def check_cfg(ctx, rep, f, cfg):
             continue
         n_r += 1
         badret = []
+        CURRENT_PRIVATE[0] = (not b.reachable) and b.trait is None
         for path, leaf in vg.leaves(t):
             if leaf[0] != "leaf":
                 continue
@@ -337,6 +338,7 @@ def returned_tfs(v):
         yield v
 
 LOCAL_IDENTS = set()     # idents of the crate's bodies (filled per run)
+CURRENT_PRIVATE = [False]   # the body whose returns are being classified cannot be called from outside the crate
 
 FOREIGN_OK = ("core::iter::Iterator::fold", "core::option::Option::<T>::unwrap", "core::option::Option::<T>::map", "core::option::Option::<T>::map_or_else",
               "<core::iter::Rev<I> as core::iter::Iterator>::fold", "core::result::Result::<T, E>::map_err", "core::result::Result::<T, E>::ok")
@@ -357,6 +359,14 @@ def ok_source(v):
             # an arithmetic operator yielding a TwoFloat, not resolved inside a private generic helper: by the orphan rule every
             # such impl is either one of the crate's (classified itself) or a downstream one on a downstream type, which can only
             # use the public constructors
+            return True
+        if re.match(r"^core::convert::Into::into<.*,TwoFloat>$", n) or re.match(r"^core::convert::From::from<TwoFloat,", n):
+            # a conversion into TwoFloat not resolved inside a private generic helper: by the orphan rule every `From<X> for TwoFloat`
+            # is one of the crate's impls (classified itself) or a downstream one for a downstream X, built with the public constructors
+            return True
+        if n.startswith("indirect:") and CURRENT_PRIVATE[0]:
+            # a call through a fn pointer inside a private function: the pointer was made by code of this crate from one of its
+            # functions, whose own returns are classified where they are defined
             return True
         if n.startswith("core::option::Option::<T>::") or n.startswith("core::result::Result::<T, E>::"):
             return True      # a combinator of core: it hands on what it was given or what a closure of this crate returns
